@@ -64,11 +64,12 @@ Qed.
 Lemma holds_any_remove : forall x h l,
   holds_any (remove_one x h) l = true -> holds_any h l = true.
 Proof.
-  induction h as [|a h IH]; simpl; intros l H.
+  induction h as [|a h IH]; intros l H.
   - exact H.
-  - destruct (Nat.eqb (fst x) (fst a) && mode_eqb (snd x) (snd a)).
-    + rewrite holds_any_cons. rewrite H. apply orb_true_r.
-    + rewrite holds_any_cons in *. apply orb_true_iff in H. destruct H as [H|H].
+  - rewrite holds_any_cons. cbn [remove_one] in H.
+    destruct (Nat.eqb (fst x) (fst a) && mode_eqb (snd x) (snd a)).
+    + rewrite H. apply orb_true_r.
+    + rewrite holds_any_cons in H. apply orb_true_iff in H. destruct H as [H|H].
       * rewrite H; reflexivity.
       * rewrite (IH _ H). apply orb_true_r.
 Qed.
@@ -76,11 +77,12 @@ Qed.
 Lemma holds_ex_remove : forall x h l,
   holds_ex (remove_one x h) l = true -> holds_ex h l = true.
 Proof.
-  induction h as [|a h IH]; simpl; intros l H.
+  induction h as [|a h IH]; intros l H.
   - exact H.
-  - destruct (Nat.eqb (fst x) (fst a) && mode_eqb (snd x) (snd a)).
-    + rewrite holds_ex_cons. rewrite H. apply orb_true_r.
-    + rewrite holds_ex_cons in *. apply orb_true_iff in H. destruct H as [H|H].
+  - rewrite holds_ex_cons. cbn [remove_one] in H.
+    destruct (Nat.eqb (fst x) (fst a) && mode_eqb (snd x) (snd a)).
+    + rewrite H. apply orb_true_r.
+    + rewrite holds_ex_cons in H. apply orb_true_iff in H. destruct H as [H|H].
       * rewrite H; reflexivity.
       * rewrite (IH _ H). apply orb_true_r.
 Qed.
@@ -182,13 +184,13 @@ Proof.
     inversion Hs; subst t'; clear Hs.
     unfold can_acq in C. rewrite forallb_forall in C. specialize (C u Hu).
     split.
-    + intro l'. destruct (HL l') as [A B]. simpl. split.
-      * intro H. rewrite holds_ex_cons in H. simpl in H.
+    + intro l'. destruct (HL l') as [A B]. cbn [th_held]. split.
+      * intro H. rewrite holds_ex_cons in H. cbn [fst snd] in H.
         apply orb_true_iff in H. destruct H as [H|H]; auto.
         apply andb_true_iff in H. destruct H as [H1 H2].
         apply Nat.eqb_eq in H1. subst l'. destruct m; try discriminate.
         unfold compat in C. apply negb_true_iff in C. exact C.
-      * intro H. rewrite holds_any_cons. simpl.
+      * intro H. rewrite holds_any_cons. cbn [fst snd].
         rewrite (B H). rewrite orb_false_r.
         destruct (Nat.eqb l l') eqn:El; auto. exfalso.
         apply Nat.eqb_eq in El. subst l'.
@@ -198,7 +200,7 @@ Proof.
     + intros a b Ha Hb. apply HP; auto. rewrite E. simpl. exact Ha.
   - (* Rel *)
     inversion Hs; subst t'; clear Hs. split.
-    + intro l'. destruct (HL l') as [A B]. simpl. split.
+    + intro l'. destruct (HL l') as [A B]. cbn [th_held]. split.
       * intro H. apply A. eapply holds_ex_remove; eauto.
       * intro H. apply holds_any_false_remove. apply B. exact H.
     + intros a b Ha Hb. apply HP; auto. rewrite E. simpl. exact Ha.
